@@ -10,7 +10,19 @@ CAL = {0: [75, 175, 227, 281, 338, 370, 371], 2: [30, 72, 107, 128, 167, 208, 22
        5: [58, 175, 201, 240, 329, 373, 373]}
 MARGIN = 60
 LAGCLASSES = (1, 2, 3, 6)        # aperiodic content: the lag probe is meaningful
-PEAK_FACTOR = 4.0                # measured maximum on the unchanged tree: 2.62 (click trains)
+PEAK_FACTOR = 8.0                # measured maximum on the unchanged tree over the whole calibrated grid: 4.72 (sweeps, 5.1 layout, q=-0.1)
+PEAK_CELL = 1.5                  # per cell: 1.5 x the ratio the unchanged encoder reaches there
+
+
+CHANNELS = [1, 2, 3, 4, 5, 6, 8]
+RATES = [8000, 11025, 16000, 22050, 32000, 44100, 48000]
+ALLQ = QS + [0.2, 0.4, 0.6, 0.8]
+NOMINALS = [32000, 48000, 64000, 96000, 128000]
+LENGTHS = [20000, 40000, 70000]
+
+
+def cell_key(cls, ch, rate, mode, q):
+    return "%d|%d|%d|%d|%s" % (cls, ch, rate, mode, q)
 
 
 def bound(cls, q):
@@ -30,15 +42,32 @@ def kv(line):
 
 
 def gen_case(rng, i, tier):
-    ch = rng.choice([1, 2, 2, 3, 4, 5, 6, 8])
-    rate = rng.choice([8000, 11025, 16000, 22050, 32000, 44100, 48000])
+    ch = rng.choice(CHANNELS + [2])
+    rate = rng.choice(RATES)
     cls = rng.choice([0, 1, 2, 3, 4, 4, 5, 6])
-    n = rng.choice([20000, 40000, 70000])
+    n = rng.choice(LENGTHS)
     if rng.random() < 0.8:
-        q = rng.choice(QS + [0.2, 0.4, 0.6, 0.8])
+        q = rng.choice(ALLQ)
         return ["case %d" % i, "sig %d %d 0 %s %d %d %d" % (ch, rate, q, n, cls, rng.randrange(1, 99999))], (ch, rate, 0, q, cls)
-    nominal = rng.choice([32000, 48000, 64000, 96000, 128000]) * max(1, ch // 2)
+    nominal = rng.choice(NOMINALS) * max(1, ch // 2)
     return ["case %d" % i, "sig %d %d 1 %d %d %d %d" % (ch, rate, nominal, n, cls, rng.randrange(1, 99999))], (ch, rate, 1, nominal, cls)
+
+
+_CAL = None
+
+
+def cell_cal(cls, ch, rate, mode, q):
+    """per-cell figures measured on the unchanged tree by tools/calibrate_c06.py: [min SNR, min worst-window figure, max..., max...]"""
+    global _CAL
+    if _CAL is None:
+        import json, os
+        p = os.path.join(os.path.dirname(os.path.abspath(__file__)), "c06_cal.json")
+        _CAL = json.load(open(p)) if os.path.exists(p) else {}
+    return _CAL.get(cell_key(cls, ch, rate, mode, q))
+
+
+CELL_MARGIN = 60         # whole-signal SNR: 6 dB under the cell's calibrated minimum
+WIN_MARGIN = 80          # worst 256-sample window: 8 dB under the cell's calibrated minimum (deterministic signal classes only)
 
 
 def oracle(line, meta):
@@ -53,17 +82,32 @@ def oracle(line, meta):
     pin, pout = float(f["peakin"]), float(f["peakout"])
     if pout > PEAK_FACTOR * pin + 0.05:
         return "peak: output peak %.3f for input peak %.3f" % (pout, pin)
+    pc = cell_cal(cls, ch, rate, mode, q)
+    if pc and len(pc) > 4 and pc[4] > 0 and pout > PEAK_CELL * max(pc[4], 1.0) * pin + 0.05:
+        return "peak: output peak %.3f for input peak %.3f; the unchanged encoder stays within %.2f x for this signal, layout and setting" % (pout, pin, pc[4])
     lfe = 5 if (ch == 6 and rate >= 40000) else None      # the 5.1 set-up band-limits its LFE channel by design
     lags = f["lag"].split(",")
     selfs = f["self"].split(",")
     snrs = f["snr"].split(",")
+    wwin = f.get("wwin", "").split(",")
+    cc = pc if cls in CAL else None
     for c in range(ch):
         if c == lfe:
             continue
+        if cc and not snrs[c].startswith("S"):
+            # the bound of this quality setting for this member of the signal family, as the unchanged encoder meets it
+            if cc[0] < 10 ** 8 and int(snrs[c]) < cc[0] - CELL_MARGIN:
+                return "noise: channel %d SNR %.1f dB at %s %s; the bound for this signal, layout and setting is %.1f dB" % (
+                    c, int(snrs[c]) / 10.0, "nominal bitrate" if mode else "quality", q, (cc[0] - CELL_MARGIN) / 10.0)
+            if cls in (0, 4, 5) and cc[1] < 10 ** 8 and c < len(wwin) and not wwin[c].startswith("S") and int(wwin[c]) < cc[1] - WIN_MARGIN:
+                return "burst: channel %d: the worst 256-sample window has its error only %.1f dB under the signal level at %s %s; bound %.1f dB" % (
+                    c, int(wwin[c]) / 10.0, "nominal bitrate" if mode else "quality", q, (cc[1] - WIN_MARGIN) / 10.0)
         if cls in LAGCLASSES and lags[c] != "0":
             return "delay: channel %d of the output matches the input best at lag %s, not 0" % (c, lags[c])
         # sparse clicks / bursts can leak between point-coupled channels at the lowest qualities: identity is judged on dense content
-        if cls in (0, 1, 2, 4, 5) and int(selfs[c]) != c:
+        # (and only where the unchanged encoder keeps the error of this signal, layout and setting 6 dB under the signal: below that — lossy
+        # channel coupling of channel-distinct sweeps at the bottom of the quality range — outputs of coupled channels legitimately resemble each other)
+        if cls in (0, 1, 2, 4, 5) and int(selfs[c]) != c and not (pc and pc[0] < 60):
             return "permuted: output channel %d matches input channel %s best" % (c, selfs[c])
         if snrs[c].startswith("S"):
             if pin == 0.0:
@@ -92,6 +136,13 @@ def run(chk):
             for (ch, rate) in ((1, 8000), (2, 44100), (3, 44100), (4, 32000), (5, 44100), (8, 48000)):
                 gens.append((["case %d" % k, "sig %d %d 0 %s 40000 %d %d" % (ch, rate, q, cls, 7 + k)], (ch, rate, 0, q, cls)))
                 k += 1
+    # every encoder template that has its own residue books at the bottom of the quality range / at low managed bitrates
+    for cls in (0, 4, 5):
+        for (ch, rate, mode, q) in ((2, 8000, 0, -0.1), (2, 11025, 0, -0.1), (2, 16000, 0, -0.1), (2, 22050, 0, -0.1), (2, 32000, 0, -0.1), (2, 44100, 0, -0.1),
+                                    (6, 44100, 0, -0.1), (1, 8000, 0, -0.1), (1, 44100, 0, -0.1), (2, 22050, 1, 32000), (2, 44100, 1, 48000), (2, 44100, 1, 64000),
+                                    (2, 8000, 1, 32000), (6, 44100, 1, 288000), (1, 44100, 1, 32000)):
+            gens.append((["case %d" % k, "sig %d %d %d %s 40000 %d %d" % (ch, rate, mode, q, cls, 7 + k)], (ch, rate, mode, q, cls)))
+            k += 1
     res = vlib.run_harness_only("c06", [g[0] for g in gens], variant="plain", timeout=3000)
     crash, ofail = [], []
     hist = {}
@@ -125,7 +176,9 @@ def run(chk):
     chk.coverage["rule"] = ("signal family (7 classes: multitone with distinct partials per channel, sweep, low-passed independent noise, click trains with distinct offsets, multitone with a silent "
                             "first channel, tone bursts with exact zeros, noise bursts) x 1-8 channels x 7 rates x quality -0.1..1.0 / managed nominal rates; measured per channel on the decoded "
                             "output: finiteness, length, peak ratio, best cross-correlation lag over {0,±1..±4,±8,...,±2048} (aperiodic classes), which input channel it matches, SNR against its own input; "
-                            "SNR bound = per-class minimum measured on the unchanged tree minus 6 dB, interpolated and made monotone in the quality setting")
+                            "SNR bound = per-class minimum measured on the unchanged tree minus 6 dB, interpolated and made monotone in the quality setting; and per cell (class, channels, rate, "
+                            "quality or nominal bitrate): the cell's minimum over three lengths (two seeds for noise) measured by tools/calibrate_c06.py minus 6 dB, plus the worst 256-sample window's error "
+                            "level minus 8 dB for the deterministic classes (an error burst the whole-signal figure averages away)")
     chk.coverage["cases_per_class"] = hist
     chk.coverage["worst_margin_over_bound_tenth_dB"] = worst
     chk.assumptions += ["the SNR bounds are calibrated on the unchanged tree: they detect a loss of more than 6 dB against today's encoder, they are not derived from the psychoacoustic model",
